@@ -167,6 +167,41 @@ pub fn main(o: &Opts) -> i32 {
     for v in val::<Fq>(o.seed) {
         xs.push(v);
     }
+    // the same kind of structure in *representation* space: raw (Montgomery) representatives r with
+    // j*r next to a multiple of q or of 2^256, j = 1..6 (where a hand-rolled multiply-by-small-constant
+    // would lose a carry or skip a reduction), and next to powers of two
+    {
+        let two256 = BigUint::one() << 256u32;
+        let mut centres: Vec<BigUint> = vec![];
+        for j in 1u32..=6 {
+            for m in 0u32..=j {
+                centres.push((&q * m) / j);
+                centres.push((&two256 * m) / j);
+            }
+        }
+        for i in (0..256u32).step_by(8) {
+            centres.push(BigUint::one() << i);
+        }
+        centres.push(BigUint::one() << 255u32);
+        let half: u64 = if o.tier == Tier::Quick { 1 << 9 } else { 1 << 12 };
+        for c in centres {
+            for k in 0..=2 * half {
+                let v = &c + k;
+                if v < BigUint::from(half) {
+                    continue;
+                }
+                let r = v - half;
+                if r >= q {
+                    continue;
+                }
+                let mut limbs = [0u64; 4];
+                for (i, d) in r.to_u64_digits().iter().enumerate() {
+                    limbs[i] = *d;
+                }
+                xs.push(Fq::new_unchecked(ark_ff::BigInt::<4>(limbs)));
+            }
+        }
+    }
     obligations += 1;
     let mism: Option<&Fq> = xs.par_iter().find_first(|x| <Parameters as SWCurveConfig>::mul_by_a(**x) != a * **x);
     if let Some(x) = mism {
@@ -200,7 +235,7 @@ pub fn main(o: &Opts) -> i32 {
     rep.nontrivial = mul_evals + law_evals;
     rep.extra.insert("obligations".into(), json!(obligations));
     rep.extra.insert("discharged".into(), json!(obligations - bad.len() as u64));
-    rep.bounds = json!({"mul_by_a_set": format!("{{0..{}}} u {{q-{}..q-1}} u {{2^i, 2^i+-1 : i<256}} u VAL ({} elements)", span, span, mul_evals), "scalar_alphabet": sc.len(), "scalar_pairs": law_evals,
+    rep.bounds = json!({"mul_by_a_set": format!("{{0..{}}} u {{q-{}..q-1}} u {{2^i, 2^i+-1 : i<256}} u VAL u raw Montgomery representatives around m*q/j, m*2^256/j (j<=6) and powers of two ({} elements)", span, span, mul_evals), "scalar_alphabet": sc.len(), "scalar_pairs": law_evals,
         "hasse_multiples_examined": hasse_candidates, "trial_division_bound": trial_bound, "miller_rabin_bases": format!("2..={}", mr_bound)});
     rep.count("mul_by_a evaluations", mul_evals);
     rep.count("scalar law pairs", law_evals);
